@@ -189,12 +189,13 @@ def processModelData (infl : Bytes → Nat → Bool) (base : Nat) (num offset : 
   else pure sizes
 
 def lodLoop (infl : Bytes → Nat → Bool) (base : Nat) :
-    List (Nat × Nat) → List (Nat × Nat) → List Nat → P Unit
-  | (vn, vo) :: vs, (inum, io) :: is, sizes => do
-    let s1 ← processModelData infl base vn vo sizes
-    let s2 ← processModelData infl base inum io s1
-    lodLoop infl base vs is s2
-  | _, _, _ => pure ()
+    List (Nat × Nat) → List (Nat × Nat) → List (Nat × Nat) → List Nat → P Unit
+  | (vn, vo) :: vs, (en, eo) :: es, (inum, io) :: is, sizes => do
+    let s1 ← processModelData infl base vn vo sizes      -- vertices
+    let s2 ← processModelData infl base en eo s1         -- edge geometry
+    let s3 ← processModelData infl base inum io s2       -- indices
+    lodLoop infl base vs es is s3
+  | _, _, _, _ => pure ()
 
 def readModel (infl : Bytes → Nat → Bool) (offset : Nat) (fi : FileInfo) (m : ModelInfo) : P Unit := do
   let base ← addU64 offset fi.size
@@ -212,7 +213,8 @@ def readModel (infl : Bytes → Nat → Bool) (offset : Nat) (fi : FileInfo) (m 
   let p2 ← addU64 base m.offset.runtime
   seekFile p2
   let s2 ← modelBlocks infl false m.num.runtime s1 0
-  lodLoop infl base (m.num.vertex.zip m.offset.vertex) (m.num.index.zip m.offset.index) s2
+  lodLoop infl base (m.num.vertex.zip m.offset.vertex) (m.num.edge.zip m.offset.edge)
+    (m.num.index.zip m.offset.index) s2
 
 /-! ### texture files -/
 
